@@ -9,18 +9,14 @@ on every run (`MirVerif.Gen.C15`), against the documented operand classes of `Mo
 (transcribed from MIR.md).  The model is tied to the C code by the exhaustive correspondence of
 `checks/c15.py` (every cell through the public API under ASan).
 
-FULL STATEMENT THAT IS FALSE ON THE CURRENT CODE (kept here, see `knownDeviations`):
-
-* `grid` (full): `∀ c i o sig dp, docSig c = some sig → sig[i]? = some dp →
-     cellVerdict insnDescs c i o = docOperand dp false o`
-  — false only at the property constants of prset/prbeq/prbne given as uint
-  (`C15:prop-uint-rejected`).  `grid` below is the exact version: equality holds *iff* the cell is
-  not covered by a listed deviation; `grid_full_iff` says the full statement is equivalent to the
-  list containing no grid-level entry.
+No full statement is false on the current code: `knownDeviations = []`, so `grid` is the full
+grid (`grid_full` below: implementation verdict = documented verdict on every documented cell).
+The exact form `grid` (equality iff no listed deviation covers the cell) is kept so that a future
+finding can be listed in one line of `Model/CheckKnown.lean`.
 
 Restored to their full form after the fixes 6cabb311 (laddr), d055fe2e (addr), 5ff22cdb (va_list),
 0147517d (prset), e6c2b500 (ret count), 27244d2d (jcall), 37892d9f (call target):
-`ret_count`, `call_matches_proto` / `call_address` (now for jcall too), `call_ref_target`, and the
+da63a480 (uint property constants): `ret_count`, `call_matches_proto` / `call_address` (now for jcall too), `call_ref_target`, and the
 grid at (laddr,0), (addr*,1), the va_list positions, (prset,0).
 -/
 namespace MirVerif.Check
@@ -124,6 +120,13 @@ theorem grid_full_iff :
     have hw := hnone d hd
     cases d <;> simp [Deviation.witness] at hw <;> simp [Deviation.at]
 
+/-- `grid`, full statement: on every position MIR.md documents for a fixed-arity opcode and for
+every operand kind, the verdict computed from the generated `insn_descs` is the documented one -/
+theorem grid_full (c i : Nat) (o : OpS) (sig : List DocPos) (dp : DocPos)
+    (hsig : docSig c = some sig) (hdp : sig[i]? = some dp) :
+    cellVerdict insnDescs c i o = docOperand dp false o :=
+  grid_full_iff.mpr (by decide) c i o sig dp hsig hdp
+
 /-- cells of defects that were fixed in /repo: implementation = documentation again -/
 example : cellVerdict insnDescs C_LADDR 0 .int = .err E_out_op
     ∧ cellVerdict insnDescs C_ADDR 1 .int = .err E_op_mode
@@ -131,7 +134,7 @@ example : cellVerdict insnDescs C_LADDR 0 .int = .err E_out_op
     ∧ cellVerdict insnDescs C_VA_END 0 (.mem ⟨.undef, false, .r (.decl .i64), .none⟩) = .ok
     ∧ cellVerdict insnDescs C_MOV 1 (.mem ⟨.undef, false, .r (.decl .i64), .none⟩) = .err E_wrong_type := by
   decide
-/-- the remaining deviation -/
+/-- the last deviation that was listed (uint property constants), now fixed -/
 example : (cellVerdict insnDescs C_PRSET 1 .uint
       = if Deviation.propUintRejected ∈ knownDeviations then .err E_op_mode else .ok)
     ∧ docOperand .propConst false .uint = .ok := by decide
